@@ -279,6 +279,7 @@ func runL5Case(h []l5Op) (obs *l5Obs) {
 	}()
 	var stmts []*sqlair.Statement
 	queries := map[int]*sqlair.Query{}
+	pendingDB := map[int]int{} // kept Query -> number of its DB
 	var stmtIDs []uint64
 	var dbs []*l5DB
 	var keep []*fakedrv.State
@@ -385,6 +386,10 @@ history:
 				}
 			}
 		case "mkq":
+			pendingDB[op.Q] = op.D
+			if op.Twin != 0 {
+				pendingDB[op.Q] = pendingDB[op.Twin]
+			}
 			ints, strs := l5Args(op.Shape)
 			ctx := context.WithValue(context.Background(), fakedrv.CtxKey{}, fmt.Sprintf("d%d-k%d", op.D, op.Shape))
 			if op.Twin != 0 {
@@ -396,6 +401,7 @@ history:
 			var rows []Row
 			q := queries[op.Q]
 			delete(queries, op.Q)
+			delete(pendingDB, op.Q)
 			p0 := prepares(keep)
 			err := q.GetAll(&rows)
 			obs.PrepPerOp = append(obs.PrepPerOp, prepares(keep)-p0)
@@ -413,6 +419,21 @@ history:
 		case "gc":
 			collect(stable)
 			segment()
+			// a DB that was dropped, that no kept Query refers to, and that the collector has
+			// dealt with: every driver statement prepared on it is closed, whichever
+			// Statements are still held
+			for di, d := range dbs {
+				held := d.db != nil
+				for _, pd := range pendingDB {
+					if pd == di+1 {
+						held = true
+					}
+				}
+				if !held && d.state.OpenStmts() > 0 {
+					obs.LeftOpen = true
+					obs.Errors = append(obs.Errors, fmt.Sprintf("DB %d was dropped and collected, %d of its driver statements are still open", di+1, d.state.OpenStmts()))
+				}
+			}
 		}
 	}
 	segment()
